@@ -380,10 +380,9 @@ DIMENSIONED = {"rdnetwork.Species": {"D", "density"}, "rdnetwork.Reaction": {"kf
 WITH_UNITS = ("str", "format_unitvar_for_save", "unitarray_to_dict")
 
 
-def rule_unitstr(ctx, py):
+def rule_unitstr(ctx, py, R="C12.UNITSTR"):
     """every dimensioned field is written together with its units (a bare number would be re-read in whatever units
     system the reader resolves for that level)"""
-    R = "C12.UNITSTR"
     n = 0
     for rq, wq, cq in PAIRS:
         if cq not in DIMENSIONED:
